@@ -804,7 +804,7 @@ fn stress_case(env: &mut Env, srt: &tokio::runtime::Runtime, rng: &mut Rng, idx:
             tokio::time::timeout(Duration::from_secs(10), handle).await.is_ok()
         } else {
             let mut all = recs.lock().unwrap().clone();
-            for _ in 0..2000 {
+            for _ in 0..10000 {
                 all = recs.lock().unwrap().clone();
                 all.extend(shared.self_recs.lock().unwrap().iter().cloned());
                 let oks = all.iter().filter(|r| r.1 == "ok").count();
